@@ -477,6 +477,18 @@ pub fn desc<P: Part>(level: &'static str) -> PartDesc {
     }
 }
 
+/// HEAD + hash of the uncommitted diff of the crates under /repo (what build.rs records at build time)
+pub fn current_repo_state() -> String {
+    let head = std::process::Command::new("git").args(["-C", "/repo", "rev-parse", "HEAD"]).output().map(|o| String::from_utf8_lossy(&o.stdout).trim().to_string()).unwrap_or_default();
+    let diff = std::process::Command::new("git").args(["-C", "/repo", "diff", "HEAD", "--", "ractor/src", "ractor_cluster/src", "ractor_cluster_derive/src"]).output().map(|o| o.stdout).unwrap_or_default();
+    let mut h: u64 = 0xcbf29ce484222325;
+    for b in diff {
+        h ^= b as u64;
+        h = h.wrapping_mul(0x100000001b3);
+    }
+    format!("{head}-{h:016x}")
+}
+
 fn bin_for(variant: &str) -> PathBuf {
     let exe = std::env::current_exe().expect("current_exe");
     if variant.is_empty() {
@@ -508,6 +520,16 @@ pub fn run_property(parts: &[&PartDesc], tier: Tier, seed: u64, jobs: u32, only_
             }
         }
         let bin = bin_for(p.variant);
+        if !p.variant.is_empty() {
+            // the other build variants are separate binaries: warn when one was built from another tree
+            if let Ok(o) = std::process::Command::new(&bin).arg("built-from").output() {
+                let built = String::from_utf8_lossy(&o.stdout).trim().to_string();
+                let now = current_repo_state();
+                if !built.is_empty() && built != now {
+                    eprintln!("WARNING: {} was built from /repo state {built}, the tree is now {now}: STALE BINARY — rebuild with /verif/check", bin.display());
+                }
+            }
+        }
         let mut children = vec![];
         for shard in 0..jobs {
             let child = std::process::Command::new(&bin)
